@@ -96,7 +96,7 @@ pub fn run(rep: &mut Report, tier: &str, seed: u64) {
                     } else {
                         // both fail: which error is soft under C01 (hard under C02/C16/C20)
                         if class != mclass {
-                            rep.count(&format!("soft:error-variant-differs:{}/{}", class, mclass));
+                            rep.fail("disagreement", &format!("C01 strict: error variant implementation {} / model {}", class, mclass), false, replay(json!(null)));
                         }
                         if ir.graph.as_ref() != Some(mg) {
                             rep.count("soft:graph-at-failure-differs");
